@@ -1,8 +1,17 @@
-"""C20 supporting validation (not proof): N threads run random programs over a shared pool of URL strings and
-shared URL objects with the switch interval minimised, one thread keeps clearing / reconfiguring the caches;
-every thread's trace must equal the trace of the same program run sequentially."""
+"""C20 supporting validation (not proof): N threads run programs over a shared pool of URL strings and shared
+URL objects with the switch interval minimised, one thread keeps clearing / reconfiguring the caches; every
+thread's trace must equal the trace of the same program run sequentially.
+
+Design points (each added after a seeded change was missed):
+ * the sequential reference is computed in a CHILD process, so that it does not warm any cache of this one;
+ * every round uses FRESH URL strings, and all threads walk the same index sequence behind a barrier, so that
+   they race on the same freshly constructed (shared, cache-filling) objects;
+ * derivations (`/`, joinpath, with_*) and first-time accessor reads are interleaved on the same object.
+"""
 import json
+import os
 import random
+import subprocess
 import sys
 import threading
 
@@ -10,65 +19,96 @@ import yarl
 from yarl import URL
 from yarl._quoting import _Quoter, _Unquoter
 
-STRS = ["http://example.com/a/b?x=1&y=2#f", "http://u:p@h:8080/p%20q/r.txt", "https://[::1]:443/", "//h/a/../b", "/rel/path?q", "http://bücher.example/ü?k=v",
-        "ftp://h", "http://h:80", "http://H/%7e", "http://h/a?a=1&a=2&b=", "http://h/a%2Fb/c", "http://xn--tda.com/é é", "http://h/" + "é " * 3000, "http://h/?" + "a=b c&" * 2000]
 LONG = ["é " * 5000, "a b" * 9000, "%41" * 6000, "x" * 8190 + " ", "€" * 2000]
 Q = _Quoter(safe="@:", protected="/+")
 QQ = _Quoter(qs=True)
 UQ = _Unquoter()
-SHARED = [URL(s) for s in STRS]
+ACC = ["raw_host", "host", "port", "explicit_port", "raw_user", "password", "raw_path", "path", "name", "suffix", "parts", "query_string", "fragment",
+       "host_subcomponent", "host_port_subcomponent", "authority", "raw_parts", "path_qs", "raw_name", "suffixes"]
 
 
-def step(k, a, b):
+def url_string(seed, rnd, i):
+    r = random.Random(seed * 1000003 + rnd * 1009 + i)
+    host = r.choice(["example.com", "bücher.example", "[::1]", "127.0.0.1", "h%d.example" % i, "日本.jp"])
+    port = r.choice(["", ":80", ":8080", ":443"])
+    user = r.choice(["", "u@", "us%20er:p%40w@"])
+    path = "/" + "/".join(r.choice(["a", "файл", "x y", "%E6%97%A5%E6%9C%AC%E8%AA%9E.txt", "b.tar.gz", "é%20é"]) for _ in range(r.randint(1, 3)))
+    q = r.choice(["", "?k=v&a=%D0%BF%D1%80", "?x=1&x=2"])
+    return "http://%s%s%s%s%s#r%d-%d" % (user, host, port, path, q, rnd, i)
+
+
+def step(op, s, k):
+    """one deterministic operation on URL string s"""
     try:
-        if k == 0:
-            u = URL(STRS[a % len(STRS)])
-            return str(u) + "|" + repr(u.host) + "|" + u.path[:50] + "|" + repr(list(u.query.items())[:3])
-        if k == 1:
-            u = SHARED[a % len(SHARED)]
-            return "|".join([str(u)[:80], repr(u.raw_host), repr(u.port), u.raw_path[:40], repr(u.name[:20]), repr(hash(u) == hash(SHARED[a % len(SHARED)]))])
-        if k == 2:
-            u = SHARED[a % len(SHARED)]
-            v = (u / "x y").with_query(a=str(b)).with_fragment("f%d" % b)
-            return str(v)[-60:]
-        if k == 3:
-            s = LONG[a % len(LONG)]
-            r = Q(s)
-            return str(len(r)) + r[:12] + r[-12:] + str(hash(r))
-        if k == 4:
-            s = LONG[a % len(LONG)]
-            r = UQ(QQ(s))
-            return str(len(r)) + repr(r == s.replace("+", " ") or len(r))
-        if k == 5:
-            u = URL.build(scheme="http", host=["É%d.com" % (b % 7), "h%d" % (b % 5), "::%d" % (b % 9 + 1)][a % 3], path="/p q/%d" % b, query={"k": [b, "v w"]})
-            return str(u) + u.human_repr()
-        if k == 6:
-            return str(SHARED[a % len(SHARED)].join(URL(["../x", "?q=%d" % b, "y/z", "#f"][b % 4])))
-        u = SHARED[a % len(SHARED)]
-        return repr(u == SHARED[b % len(SHARED)]) + repr(u.human_repr()[:40]) + repr(u.with_host("H%d.example" % (b % 11)).raw_host)
+        u = URL(s)
+        if op == 0:
+            return repr([getattr(u, a) for a in ACC[k % 5::5]])
+        if op == 1:
+            v = u / ("x y%d" % (k % 3))
+            return str(v) + repr(v.raw_host) + repr(v.explicit_port)
+        if op == 2:
+            v = u.joinpath("a", "б", "..", "c")
+            return str(v) + repr(v.host_port_subcomponent)
+        if op == 3:
+            v = u.with_scheme(["https", "ws", "http"][k % 3])
+            return str(v) + repr(v.host_port_subcomponent) + repr(v.port)
+        if op == 4:
+            v = u.with_query(a=str(k % 7)).with_fragment("f")
+            return str(v) + repr(list(v.query.items()))
+        if op == 5:
+            return u.human_repr() + repr(hash(u) == hash(URL(s))) + repr(u == URL(s))
+        if op == 6:
+            t = LONG[k % len(LONG)]
+            r = Q(t)
+            return str(len(r)) + r[:12] + r[-12:] + str(UQ(QQ(t)) == t.replace("+", " "))
+        if op == 7:
+            v = u.with_host(["H%d.example" % (k % 5), "É%d.com" % (k % 3), "::%d" % (k % 9 + 1)][k % 3]).with_port([None, 80, 8443][k % 3])
+            return str(v) + repr(v.raw_host)
+        v = u.join(URL(["../x", "?q=%d" % (k % 4), "y/z", "#f"][k % 4])).parent
+        return str(v) + repr(v.name)
     except Exception as e:  # noqa
         return "!" + type(e).__name__
 
 
-def program(seed, n):
-    r = random.Random(seed)
-    return [(r.randrange(8), r.randrange(1000), r.randrange(1000)) for _ in range(n)]
+def program(seed, t, rounds, per_round):
+    r = random.Random(seed * 7919 + t)
+    return [[(r.randrange(9), i, r.randrange(1000)) for i in range(per_round)] for _ in range(rounds)]
+
+
+def sequential(seed, nthreads, rounds, per_round):
+    return [[[step(op, url_string(seed, rnd, i), k) for (op, i, k) in rd] for rnd, rd in enumerate(program(seed, t, rounds, per_round))]
+            for t in range(nthreads)]
 
 
 def main():
+    if sys.argv[1] == "--reference":
+        seed, nthreads, rounds, per_round = map(int, sys.argv[2:6])
+        print(json.dumps(sequential(seed, nthreads, rounds, per_round)))
+        return
     seed, nthreads, nsteps = int(sys.argv[1]), int(sys.argv[2]), int(sys.argv[3])
-    progs = [program(seed * 100 + t, nsteps) for t in range(nthreads)]
-    expected = [[step(*s) for s in p] for p in progs]
+    per_round = 12
+    rounds = max(1, nsteps // per_round)
+    ref = subprocess.run([sys.executable, os.path.abspath(__file__), "--reference", str(seed), str(nthreads), str(rounds), str(per_round)],
+                         capture_output=True, text=True, env=os.environ)
+    if ref.returncode != 0:
+        print(json.dumps({"failures": [{"what": "reference run failed: " + ref.stderr[-300:], "class": "crash"}]}))
+        return
+    expected = json.loads(ref.stdout)
+    progs = [program(seed, t, rounds, per_round) for t in range(nthreads)]
     sys.setswitchinterval(1e-6)
-    results = [None] * nthreads
+    results = [[None] * rounds for _ in range(nthreads)]
     errors = []
     stop = threading.Event()
+    barrier = threading.Barrier(nthreads)
 
     def worker(t):
         try:
-            results[t] = [step(*s) for s in progs[t]]
+            for rnd, rd in enumerate(progs[t]):
+                barrier.wait()
+                results[t][rnd] = [step(op, url_string(seed, rnd, i), k) for (op, i, k) in rd]
         except BaseException as e:  # noqa
             errors.append(f"thread {t}: {type(e).__name__}: {e}")
+            barrier.abort()
 
     def churner():
         r = random.Random(seed)
@@ -94,16 +134,23 @@ def main():
     c.join()
     failures = []
     for e in errors:
-        failures.append({"what": e, "class": "thread-exception"})
+        if "BrokenBarrier" not in e:
+            failures.append({"what": e, "class": "thread-exception"})
     for t in range(nthreads):
-        if results[t] is None:
-            continue
-        for i, (a, b) in enumerate(zip(results[t], expected[t])):
-            if a != b:
-                failures.append({"what": f"thread {t} step {i} {progs[t][i]!r}: concurrent result {a[:100]!r} differs from the sequential result {b[:100]!r}", "class": "thread-divergence",
-                                 "program": [repr(progs[t][i])]})
+        for rnd in range(rounds):
+            got = results[t][rnd]
+            if got is None:
+                continue
+            for j, (a, b) in enumerate(zip(got, expected[t][rnd])):
+                if a != b:
+                    op, i, k = progs[t][rnd][j]
+                    failures.append({"what": f"thread {t}, round {rnd}: op {op} on {url_string(seed, rnd, i)!r}: concurrent result {a[:120]!r} differs from the sequential result {b[:120]!r}",
+                                     "class": "thread-divergence", "program": [repr((op, url_string(seed, rnd, i), k))]})
+                    break
+            if len(failures) > 6:
                 break
-    print(json.dumps({"failures": failures[:10], "threads": nthreads, "steps": nthreads * nsteps, "sample": [repr(progs[0][0]), expected[0][0][:80]]}))
+    print(json.dumps({"failures": failures[:10], "threads": nthreads, "steps": nthreads * rounds * per_round,
+                      "sample": [repr(progs[0][0][0]), expected[0][0][0][:80]]}))
 
 
 main()
